@@ -278,15 +278,15 @@ class Real:
         config = self.opts.get('build') == 'config'
         self.db = None
         if config:
-            import ZODB.config
+            from ZODB import config as zconfig
             if self.mode == 'db':
                 if self.storage_kind == 'demo':
                     import random as _random
                     _random.seed(12345)
-                self.db = ZODB.config.databaseFromString(self.config_text())
+                self.db = zconfig.databaseFromString(self.config_text())
                 self.top = self.db.storage
             else:
-                self.top = ZODB.config.storageFromString(self.config_text())
+                self.top = zconfig.storageFromString(self.config_text())
             self.fs = {'demo': lambda: self.top.changes, 'hex': lambda: self.top.base}.get(
                 self.storage_kind, lambda: self.top)()
         else:
